@@ -11,6 +11,7 @@ class Loop:
     ghost_update: dict = field(default_factory=dict)  # name -> expr over end-of-body state
     types: dict = field(default_factory=dict)         # havoc sort overrides: name -> 'int'|'real'|'bool'|'opt_int'
     extra_modifies: list = field(default_factory=list)
+    unroll: int = 0            # >0: unroll completely; the obligation loopK.unwind.complete makes it a proof, not a bound
 
     def inv(self):
         return [x if isinstance(x, tuple) else (str(i), x) for i, x in enumerate(self.invariant)]
@@ -83,3 +84,4 @@ class Group:
     assumptions: list = field(default_factory=list)   # free-text assumptions for the evidence
     trusted: list = field(default_factory=list)
     not_covered: list = field(default_factory=list)
+    bounded: list = field(default_factory=list)      # [{'name', 'props', 'cmd': [argv...]}] bounded stand-ins (never counted as proved)
